@@ -83,7 +83,7 @@ def run(tier, seed):
                        'oracle re-derives them by an independent clustering of the end points']
     standard_front(chk, 'Props/C12.v', extra_vo=('Model/Topology.v', 'Proofs/TopologyP.v', 'Corr/TopoDriver.v'))
     rng = random.Random(seed)
-    good, errs = stage_topo.run_stage(chk, rng, 96 if tier == 'quick' else 1200)
+    good, errs = stage_topo.run_stage(chk, rng, 96 if tier == 'quick' else 4800)
     for r in good:
         chk.add_case(json.dumps(r['spec'], sort_keys=True), len(r['obs']['geos']) > 1,
                      sample=dict(family=r['spec']['family'], objects=len(r['obs']['geos']), pulses=len(r['obs']['pulses'])))
